@@ -39,6 +39,8 @@ class LL:
         self.blob_dtype = None
         self.blob_form = None   # None: (logl, tag) | "two": (logl, tag, 2 tag) | "vector": (logl, array([tag, 2 tag, 3 tag])) | "str": (logl, repr(tag))
         self.ret = None         # how the log-likelihood value itself is spelled: None (Python float) | "np.float64" | "0d" | "list" / "readonly" (vectorised)
+        self.noisy = False      # pseudo-marginal style: every call returns logL + a call-specific perturbation and the call's serial number as blob
+        self.serial = 0
         self.uses_rng = False   # the user's likelihood itself draws from numpy's global generator (legal; the seeded run must stay reproducible)
         self.fail_countdown = None  # k: the k-th evaluation from now raises UserFailure once (a transient failure of the user's code)
         self.n = 0
@@ -68,6 +70,9 @@ class LL:
             v = np.float64(v)
         elif self.ret == "0d":
             v = np.array(v)
+        if self.noisy and self.mode == "blobs":
+            self.serial += 1
+            return v + targets.call_noise(self.serial), float(self.serial)
         if self.mode == "blobs":
             b = targets.blob_cast(targets.blob_of(x), self.blob_dtype)
             if self.blob_form == "two":
@@ -165,6 +170,7 @@ def make_sampler(cfg, pool=None):
     ll.blob_form = c.get("blob_form")
     ll.ret = c.get("ll_return")
     ll.uses_rng = bool(c.get("ll_rng"))
+    ll.noisy = bool(c.get("ll_noisy"))
     per, ref = BOUNDARY[c["boundary"]]
     kw = dict(
         prior_transform=_as_callable(PRIORS[c["prior"]], c.get("callable"), "prior_transform"), log_likelihood=_as_callable(ll, c.get("callable"), "log_likelihood"), n_dim=c["d"], n_particles=c["n_particles"], ess_ratio=c["ess_ratio"],
